@@ -24,6 +24,9 @@ Clause map
 * the implementation's cut-off (see DIFFERENCES) — `lexScan` and `lexScan_sound`: whatever the scan
   returns is a valid matching candidate and is the documented choice among all candidates of the
   same length (rules 4, 5 and the same-length part of rule 2).
+* immediate tokens (`token.immediate`) — `validAt`: after skipped extras an immediate token is not a
+  candidate; every theorem about `refToken` / `lexScan` is parametric in the valid-token predicate and
+  therefore applies to `validAt toks valid off`.
 * "extras are skipped between tokens" — `refTokenize`, `refTokenize_progress` (the result does not
   depend on the fuel once it exceeds the input length) and `tokenize_increasing` (every token is
   non-empty and starts at or after the end of the previous one).
@@ -43,9 +46,10 @@ and `refToken` differ):
    lexer) the longer precedence-0 token.
 2. the cut-off uses the completion of the CURRENT DFA state only: after a state with no completion
    the scan goes on whatever was completed earlier.
-3. implicit precedence: `token(…)` adds 1 to a rule's implicit precedence (String 2, RegExp 0), so a
-   RegExp wrapped in `token` beats a bare RegExp of an earlier rule; the explorer wraps every rule
-   in `token(prec(p, …))`, which keeps "String over RegExp, then rule order".
+3. implicit precedence: String 2, RegExp 0, and `token.immediate(…)` adds 1 (`get_implicit_precedence`):
+   at equal precedence and length an immediate token beats a non-immediate one of the same kind even
+   when it is defined later (undocumented; modelled in `keyOf`, spelled out in `refToken_rules`);
+   "String over RegExp" is unaffected (3, 2 > 1, 0).
 4. (context-aware lexing) every theorem is parametric in the valid-token predicate; the check
    instantiates it with the valid set of the real parse state (from the parse table) in two-mode
    grammars.  With merged lex states the generated lexer may return a token that is NOT valid in the
@@ -97,17 +101,30 @@ theorem refToken_rules (toks : List Token) (valid : Nat → Bool) (input : List 
     tc.prec ≤ tb.prec ∧
     (tc.prec = tb.prec → c.2 ≤ b.2) ∧
     (tc.prec = tb.prec → c.2 = b.2 → tc.isString = true → tb.isString = true) ∧
-    (tc.prec = tb.prec → c.2 = b.2 → tc.isString = tb.isString → b.1 ≤ c.1) := by
+    (tc.prec = tb.prec → c.2 = b.2 → tc.isString = tb.isString → tc.immediate = true → tb.immediate = true) ∧
+    (tc.prec = tb.prec → c.2 = b.2 → tc.isString = tb.isString → tc.immediate = tb.immediate → b.1 ≤ c.1) := by
   have hb := (refToken_spec toks valid input b h).2.1 c hc
   simp only [Better, keyOf] at hb
-  refine ⟨by omega, fun h1 => by omega, ?_, ?_⟩
+  have ib : (if (tokAt toks b.1).immediate = true then 1 else 0 : Nat) ≤ 1 := by split <;> omega
+  have ic : (if (tokAt toks c.1).immediate = true then 1 else 0 : Nat) ≤ 1 := by split <;> omega
+  have sb : (if (tokAt toks b.1).isString = true then 2 else 0 : Nat) = 0 ∨ (if (tokAt toks b.1).isString = true then 2 else 0 : Nat) = 2 := by split <;> omega
+  refine ⟨by omega, fun h1 => by omega, ?_, ?_, ?_⟩
   · intro h1 h2 h3
     rw [h3] at hb
     by_cases hs : (tokAt toks b.1).isString = true
     · exact hs
-    · simp only [hs] at hb; simp at hb; omega
-  · intro h1 h2 h3
-    rw [h3] at hb
+    · simp only [hs] at hb
+      simp only [Bool.false_eq_true, if_false, if_true] at hb
+      omega
+  · intro h1 h2 h3 h4
+    rw [h3, h4] at hb
+    by_cases hs : (tokAt toks b.1).immediate = true
+    · exact hs
+    · simp only [hs] at hb
+      simp only [Bool.false_eq_true, if_false, if_true] at hb
+      omega
+  · intro h1 h2 h3 h4
+    rw [h3, h4] at hb
     omega
 
 /-- `lexScan_sound`: the scan's answer is a valid, matching candidate and is the documented choice
@@ -228,7 +245,7 @@ theorem lexScan_eq_refToken_of_longest (toks : List Token) (valid : Nat → Bool
 
 /-- `refTokenize_progress`: any fuel above the input length gives the same answer, i.e. the
 tokenizer never stops for lack of fuel (each step consumes at least one character). -/
-theorem refTokenize_progress (choose : List Nat → Option Cand) (isExtra : Nat → Bool) (input : List Nat)
+theorem refTokenize_progress (choose : Nat → List Nat → Option Cand) (isExtra : Nat → Bool) (input : List Nat)
     (fuel : Nat) (h : input.length < fuel) :
     tokenizeAux choose isExtra fuel 0 input = refTokenize choose isExtra input :=
   tokenizeAux_fuel choose isExtra fuel (input.length + 1) 0 input h (Nat.lt_succ_self _)
@@ -238,7 +255,7 @@ def Increasing : Nat → List (Nat × Nat × Nat) → Prop
   | _, [] => True
   | pos, (_, s, e) :: rest => pos ≤ s ∧ s < e ∧ Increasing e rest
 
-theorem tokenize_increasing (choose : List Nat → Option Cand) (isExtra : Nat → Bool) :
+theorem tokenize_increasing (choose : Nat → List Nat → Option Cand) (isExtra : Nat → Bool) :
     ∀ (fuel pos : Nat) (input : List Nat) (ts : List (Nat × Nat × Nat)),
       tokenizeAux choose isExtra fuel pos input = some ts → Increasing pos ts := by
   intro fuel
@@ -308,7 +325,7 @@ theorem keyword_matches_word (toks : List Token) (validKw : Nat → Bool) (main 
 
 /-- tokens over `a`=97 `b`=98: 0 = "a" (String), 1 = /a+/ , 2 = /[ab]+/ with precedence 0 -/
 def exToks : List Token :=
-  [ ⟨lit [97], 0, true⟩, ⟨plus (chr 97), 0, false⟩, ⟨plus (.cls [(97, 98)] false), 0, false⟩ ]
+  [ ⟨lit [97], 0, true, false⟩, ⟨plus (chr 97), 0, false, false⟩, ⟨plus (.cls [(97, 98)] false), 0, false, false⟩ ]
 
 example : matchesB (rep (chr 97) 1 2) [97, 97] = true := by decide
 example : Matches (plus (chr 97)) [97, 97] := (deriv_correct _ _).1 (by decide)
@@ -320,21 +337,29 @@ example : FlatPrec exToks (fun _ => true) 0 := by
   intro i hi _
   have : i = 0 ∨ i = 1 ∨ i = 2 := by simp [exToks] at hi; omega
   rcases this with rfl | rfl | rfl <;> rfl
-example : refTokenize (refToken exToks (fun _ => true)) (fun c => c == 32) [97, 32, 97, 97, 32, 98] =
+example : refTokenize (fun _ => refToken exToks (fun _ => true)) (fun c => c == 32) [97, 32, 97, 97, 32, 98] =
     some [(0, 0, 1), (1, 2, 4), (2, 5, 6)] := by decide
+
+/-- immediate tokens: 0 = "a", 1 = immediate "b".  `ab` is two tokens, in `a b` the blank rules the
+immediate token out, so no token is found after the blank. -/
+def immToks : List Token := [ ⟨lit [97], 0, true, false⟩, ⟨lit [98], 0, true, true⟩ ]
+example : refTokenize (fun off => refToken immToks (validAt immToks (fun _ => true) off)) (fun c => c == 32) [97, 98] =
+    some [(0, 0, 1), (1, 1, 2)] := by decide
+example : refTokenize (fun off => refToken immToks (validAt immToks (fun _ => true) off)) (fun c => c == 32) [97, 32, 98] =
+    none := by decide
 
 /-- DIFFERENCE 1 witness.  0 = "a" with precedence 1, 1 = "abX" with precedence 1 (X = `d`),
 2 = /ab+/ with precedence 0; input `abb`.  The documented order takes the precedence-1 token "a";
 the scan (like the generated lexer, see corpus/c14.txt) returns the longer precedence-0 token,
 because the transition on `b` is shared with the precedence-1 token "abd". -/
 def overtakeToks : List Token :=
-  [ ⟨lit [97], 1, true⟩, ⟨lit [97, 98, 100], 1, true⟩, ⟨.seq (chr 97) (plus (chr 98)), 0, false⟩ ]
+  [ ⟨lit [97], 1, true, false⟩, ⟨lit [97, 98, 100], 1, true, false⟩, ⟨.seq (chr 97) (plus (chr 98)), 0, false, false⟩ ]
 theorem overtake_witness :
     refToken overtakeToks (fun _ => true) [97, 98, 98] = some (0, 1) ∧
     lexScan overtakeToks (fun _ => true) [97, 98, 98] = some (2, 3) := by decide
 
 /-- word token 1 = /[a-z]+/ , keyword 0 = "if": `if ` gives the keyword, `ifx` the word -/
-def kwToks : List Token := [ ⟨lit [105, 102], 0, true⟩, ⟨plus (.cls [(97, 122)] false), 0, false⟩ ]
+def kwToks : List Token := [ ⟨lit [105, 102], 0, true, false⟩, ⟨plus (.cls [(97, 122)] false), 0, false, false⟩ ]
 example : withKeywords (lexScan kwToks (fun i => i == 1)) (lexScan kwToks (fun i => i == 0)) 1 [105, 102, 32] = some (0, 2) := by decide
 example : withKeywords (lexScan kwToks (fun i => i == 1)) (lexScan kwToks (fun i => i == 0)) 1 [105, 102, 120] = some (1, 3) := by decide
 
